@@ -1,10 +1,11 @@
 import FastgoModel.Spec.Inflate
 import FastgoModel.Writer.Replay
+import FastgoModel.Container.Members
 /-
   Line-protocol driver of the executable models (`lake build fgmodel`).
   One case per input line, one answer line per case. Bytes travel as lowercase hex.
 -/
-open Fastgo Fastgo.Spec Fastgo.Writer
+open Fastgo Fastgo.Spec Fastgo.Writer Fastgo.Container
 
 def hexVal (c : Char) : Option Nat :=
   if '0' ≤ c ∧ c ≤ '9' then some (c.toNat - '0'.toNat)
@@ -87,6 +88,37 @@ def answerW (window maxTok : Nat) (fails : List Nat) (ops : List Writer.Op) (log
   let bad := match w.dyn.mf.bad with | none => "-" | some m => m
   s!"{String.intercalate ";" lines} left={(takeChunks w.dyn.mf.log).2.length} bad={bad}"
 
+/-! ### containers and checksums -/
+
+def hexL (bs : List UInt8) : String := if bs.isEmpty then "-" else toHex bs.toArray
+
+def parseInt! (s : String) : Int :=
+  if s.startsWith "-" then - (Int.ofNat (parseNat! (s.drop 1).toString)) else Int.ofNat (parseNat! s)
+
+def optHex (s : String) : Option (Option (List UInt8)) :=
+  if s = "-" then some none
+  else if s = "e" then some (some [])
+  else (parseHex s).map some
+
+def showOpt : Option (List UInt8) → String
+  | none => "-"
+  | some [] => "e"
+  | some bs => toHex bs.toArray
+
+def answerGP (bs : List UInt8) : String :=
+  match parseHeader bs with
+  | .ok h rest => s!"ok {h.mtime} {h.os.toNat} {showOpt h.extra} {hexL h.name} {hexL h.comment} {rest.length}"
+  | .cleanEOF => "cleaneof"
+  | .unexpectedEOF => "unexpectedeof"
+  | .badHeader => "badheader"
+
+def answerZP (dict : Option (List UInt8)) (bs : List UInt8) : String :=
+  match parseZHeader dict bs with
+  | .ok hd rest => s!"ok {hd} {rest.length}"
+  | .unexpectedEOF => "unexpectedeof"
+  | .badHeader => "badheader"
+  | .badDict => "baddict"
+
 def step (line : String) : String :=
   match (line.trimAscii.toString.splitOn " ") with
   | ["I", mode, dict, stream] =>
@@ -100,6 +132,37 @@ def step (line : String) : String :=
     let os := (ops.splitOn ",").filterMap parseOp
     let es := if evs = "-" then [] else (evs.splitOn ";").filterMap parseEv
     answerW (parseNat! window) (parseNat! maxTok) fl os es
+  | ["K", "crc", data] =>
+    match parseHex data with
+    | some d => s!"{(crc32 d).toNat}"
+    | none => "bad-hex"
+  | ["K", "adler", data] =>
+    match parseHex data with
+    | some d => s!"{adler32 d}"
+    | none => "bad-hex"
+  | ["GH", level, mtime, os, extra, name, comment] =>
+    match optHex extra, parseHex name, parseHex comment with
+    | some e, some n, some c =>
+      hexL (emitHeader { extra := e, name := n, comment := c, mtime := parseNat! mtime, os := UInt8.ofNat (parseNat! os) } (parseInt! level))
+    | _, _, _ => "bad-hex"
+  | ["GP", data] =>
+    match parseHex data with
+    | some d => answerGP d
+    | none => "bad-hex"
+  | ["GT", writes] =>
+    let ws := (if writes = "-" then [] else writes.splitOn ";").filterMap parseHex
+    hexL (ws.foldl GzSum.update {}).trailer
+  | ["ZH", level, dict] =>
+    match optHex dict with
+    | some d => hexL (emitZHeader (parseInt! level) d)
+    | none => "bad-hex"
+  | ["ZP", dict, data] =>
+    match optHex dict, parseHex data with
+    | some dd, some d => answerZP dd d
+    | _, _ => "bad-hex"
+  | ["ZT", writes] =>
+    let ws := (if writes = "-" then [] else writes.splitOn ";").filterMap parseHex
+    hexL (be (adlerValue (ws.foldl adlerUpdate (1, 0))) 4)
   | _ => "bad-op"
 
 partial def loop (h : IO.FS.Stream) (out : IO.FS.Stream) : IO Unit := do
